@@ -14,6 +14,8 @@ type Scn struct {
 	Huge        bool     `json:"huge"`
 	Fam         int      `json:"fam"`
 	Fault       string   `json:"fault"`
+	Remover     string   `json:"remover"` // server | nobody: does the server remove the directory while verifying?
+	Verdict     string   `json:"verdict"` // any | accept | refuse: the verdict a non-removing server sends
 	Valid       bool     `json:"valid"`
 	Exp         string   `json:"exp"` // client: create | either | reject; server: accept | either | reject
 	MadeCreated []Loc    `json:"madeCreated"`
